@@ -40,7 +40,7 @@ def plan(tier):
 
 def describe(tier):
     return {
-        'rule': 'prefix: densely shared circuits (gate k reads all / the last 2-4 earlier nodes; 2..14 / 2..24 gates, 1-4 inputs, three type cycles) x all 3^n partial assignments x five entry points; wide: every n-ary type with 255/256/257/300 operands over a stated operand alphabet (uniform, alternating, one deviating or Undefined operand at the first/middle/last/256th position); deep: chains of 1200/3000 (thorough 7000) gates, six patterns, both storage orders x all 27 partial assignments x five entry points; operators: every gate type x every operand vector over {False,True,Undefined} (arity<=4 for n-ary); '
+        'rule': 'removal: every small circuit after a temporary user of each gate was added and removed again (a gate that lost its last user), all partial assignments x entry points; prefix: densely shared circuits (gate k reads all / the last 2-4 earlier nodes; 2..14 / 2..24 gates, 1-4 inputs, three type cycles) x all 3^n partial assignments x five entry points; wide: every n-ary type with 255/256/257/300 operands over a stated operand alphabet (uniform, alternating, one deviating or Undefined operand at the first/middle/last/256th position); deep: chains of 1200/3000 (thorough 7000) gates, six patterns, both storage orders x all 27 partial assignments x five entry points; operators: every gate type x every operand vector over {False,True,Undefined} (arity<=4 for n-ary); '
         'circuits: every circuit of F(n,k,A) x all 3^n partial assignments x {absent, explicit Undefined} x '
         '{evaluate_full_circuit, evaluate_circuit (default outputs = all sinks, and outputs=[g] for every g), '
         'evaluate_circuit_outputs}; soundness against all completions, monotonicity along every covering pair '
@@ -591,6 +591,29 @@ def check_wide_ops(acc, boolean_only=False, prefix=''):
                 acc.outcome('op', (t, ar, name))
 
 
+def check_after_removal(n, gates, acc):
+    """A helper gate is added on top of every gate in turn and removed again (remove_gate), so that some gate has
+    lost its last user; then every entry point under every partial assignment."""
+    from cirbo.core.circuit import gate as G
+
+    k = len(gates)
+    if k < 1:
+        return
+    labs = space.labels(n, k)
+    for victim in labs[n:]:
+        c = space.build(n, gates, (n + k - 1,))
+        try:
+            c.emplace_gate('zz_tmp_user', G.NOT, (victim,))
+            c.emplace_gate('zz_tmp_user2', G.AND, ('zz_tmp_user', victim))
+            c.remove_gate('zz_tmp_user2')
+            c.remove_gate('zz_tmp_user')
+        except Exception as e:  # noqa: BLE001
+            acc.violation(f'remove_gate/raises-{type(e).__name__}', lambda: space.spec_json(n, gates), repr(e)[:200])
+            return
+        net = refmodel.abstract(c)
+        _check_partial(acc, c, net, {**space.spec_json(n, gates), 'after_removing_a_user_of': victim}, ('removal', n, k))
+
+
 def run_task(task, acc):
     if task['kind'] == 'ops':
         return check_ops(acc)
@@ -612,6 +635,7 @@ def run_task(task, acc):
         check_circuit(task['n'], gates, acc)
         check_after_relabel(task['n'], gates, acc)
         check_requests(task['n'], gates, acc)
+        check_after_removal(task['n'], gates, acc)
 
 
 def replay(case, acc):
@@ -621,6 +645,9 @@ def replay(case, acc):
         return check_deep(acc, case['deep_chain'], case['length'], case['storage'])
     if 'arity' in case:
         return check_wide_ops(acc)
+    if 'after_removing_a_user_of' in case:
+        n, gates, _ = space.spec_from_json(case)
+        return check_after_removal(n, gates, acc)
     if 'prefix_circuit' in case:
         return check_prefix(acc, *case['prefix_circuit'])
     if 'gates' in case:
